@@ -40,8 +40,49 @@ fn stat(id: &str, a: &[Arg]) -> Option<String> {
 }
 
 pub fn dispatch(id: &str, a: &[Arg]) -> Option<String> {
+    if id.starts_with("sample::") {
+        return crate::hand_samplers::dispatch(id, a);
+    }
     if id.starts_with("IterStatistics::") {
         return stat(id, a);
+    }
+    {
+        use statrs::distribution::{ContinuousCDF, Empirical};
+        let obs_of = |e: &Empirical, obs: &[f64]| -> (Vec<f64>, (Option<f64>, Option<f64>)) {
+            let mut v: Vec<f64> = obs.iter().map(|x| e.cdf(*x)).collect();
+            v.extend(obs.iter().map(|x| e.sf(*x)));
+            if e.mean().is_none() {
+                v.push(f64::NAN);
+                v.push(f64::NAN);
+            } else {
+                v.push(e.min());
+                v.push(e.max());
+            }
+            (v, (e.mean(), e.variance()))
+        };
+        match id {
+            "Empirical::history" => {
+                let vals = a[0].fl();
+                let ops = a[1].il();
+                let obs = a[2].fl();
+                let mut e = Empirical::new().unwrap();
+                let mut out = vec![];
+                for (v, o) in vals.iter().zip(ops.iter()) {
+                    if *o == 0 {
+                        e.add(*v);
+                    } else {
+                        e.remove(*v);
+                    }
+                    out.push(obs_of(&e, &obs));
+                }
+                return Some(rep(&out));
+            }
+            "Empirical::from_iter" => {
+                let e: Empirical = a[0].fl().into_iter().collect();
+                return Some(rep(&obs_of(&e, &a[1].fl())));
+            }
+            _ => {}
+        }
     }
     use statrs::generate::*;
     let take = |it: &mut dyn Iterator<Item = f64>, n: i128| -> Vec<f64> { it.take(n.max(0) as usize).collect() };
@@ -52,6 +93,48 @@ pub fn dispatch(id: &str, a: &[Arg]) -> Option<String> {
         "gen::triangle" => return Some(rep(&take(&mut InfiniteTriangle::new(a[0].i() as i64, a[1].i() as i64, a[2].f(), a[3].f(), a[4].i() as i64), a[5].i()))),
         "gen::sawtooth" => return Some(rep(&take(&mut InfiniteSawtooth::new(a[0].i() as i64, a[1].f(), a[2].f(), a[3].i() as i64), a[4].i()))),
         _ => {}
+    }
+    {
+        use statrs::statistics::OrderStatistics;
+        let buf = |d: &Data<Vec<f64>>| -> Vec<f64> { d.iter().copied().collect() };
+        match id {
+            "Data::order_statistic" => {
+                let mut d = Data::new(a[0].fl());
+                let v = d.order_statistic(a[1].i() as usize);
+                return Some(rep(&(v, buf(&d))));
+            }
+            "Data::median_os" => {
+                let mut d = Data::new(a[0].fl());
+                let v = OrderStatistics::median(&mut d);
+                return Some(rep(&(v, buf(&d))));
+            }
+            "Data::quantile" => {
+                let mut d = Data::new(a[0].fl());
+                let v = d.quantile(a[1].f());
+                return Some(rep(&(v, buf(&d))));
+            }
+            "Data::percentile" => {
+                let mut d = Data::new(a[0].fl());
+                let v = d.percentile(a[1].i() as usize);
+                return Some(rep(&(v, buf(&d))));
+            }
+            "Data::lower_quartile" => {
+                let mut d = Data::new(a[0].fl());
+                let v = d.lower_quartile();
+                return Some(rep(&(v, buf(&d))));
+            }
+            "Data::upper_quartile" => {
+                let mut d = Data::new(a[0].fl());
+                let v = d.upper_quartile();
+                return Some(rep(&(v, buf(&d))));
+            }
+            "Data::interquartile_range" => {
+                let mut d = Data::new(a[0].fl());
+                let v = d.interquartile_range();
+                return Some(rep(&(v, buf(&d))));
+            }
+            _ => {}
+        }
     }
     match id {
         "Data::min" => Some(rep(&Data::new(a[0].fl()).min())),
@@ -144,6 +227,141 @@ pub fn gen(suite: &str, tier: &str, seed: u64) {
                 emit("gen::square", &[Arg::I(hd), Arg::I(ld), Arg::F(r.range(0.5, 3.0)), Arg::F(r.range(-3.0, 0.5)), Arg::I(d), Arg::I(n_out / 4)]);
                 emit("gen::triangle", &[Arg::I(hd), Arg::I(ld), Arg::F(r.range(0.5, 3.0)), Arg::F(r.range(-3.0, 0.5)), Arg::I(d), Arg::I(n_out / 4)]);
                 emit("gen::sawtooth", &[Arg::I(2 + r.below(8) as i128), Arg::F(r.range(0.5, 3.0)), Arg::F(r.range(-3.0, 0.5)), Arg::I(d), Arg::I(n_out / 4)]);
+            }
+        }
+        "samplers" => {
+            // scripted word streams: stratified first word + seeded tail; core-domain parameter tuples
+            let per = if thorough { 400 } else { 60 };
+            for (id, ct, cn, fam) in crate::hand_samplers::SAMPLERS.iter() {
+                let ct: Vec<String> = ct.iter().map(|s| s.to_string()).collect();
+                let cn: Vec<String> = cn.iter().map(|s| s.to_string()).collect();
+                for i in 0..per {
+                    let t = crate::gen::ctor_tuple(&mut r, fam, &ct, &cn, false, false);
+                    // keep rejection samplers bounded: skip parameter corners known to loop forever
+                    let mut words: Vec<i128> = vec![];
+                    let first = match i % 6 {
+                        0 => 0u64,
+                        1 => u64::MAX,
+                        2 => 1u64 << 63,
+                        _ => r.next(),
+                    };
+                    words.push(first as i128);
+                    for _ in 0..1300 {
+                        words.push(r.next() as i128);
+                    }
+                    let mut a = t.clone();
+                    a.push(Arg::IL(words));
+                    emit(id, &a);
+                }
+            }
+        }
+        "empirical" => {
+            // exhaustive histories over {-1.5, 0, 2, 1e8, NaN} x {add, remove} up to length L, plus seeded long ones
+            let alpha = [-1.5, 0.0, 2.0, 1e8, f64::NAN];
+            let obs = vec![-2.0, -1.5, 0.0, 1.0, 2.0, 1e8, 2e8];
+            let maxlen = if thorough { 5 } else { 4 };
+            let mut frontier: Vec<(Vec<f64>, Vec<i128>)> = vec![(vec![], vec![])];
+            for _ in 0..maxlen {
+                let mut next = vec![];
+                for (vs, os) in &frontier {
+                    for v in alpha.iter() {
+                        for o in [0i128, 1] {
+                            let mut v2 = vs.clone();
+                            v2.push(*v);
+                            let mut o2 = os.clone();
+                            o2.push(o);
+                            next.push((v2, o2));
+                        }
+                    }
+                }
+                frontier = next;
+            }
+            for (vs, os) in &frontier {
+                emit("Empirical::history", &[Arg::FL(vs.clone()), Arg::IL(os.clone()), Arg::FL(obs.clone())]);
+            }
+            let nrand = if thorough { 2000 } else { 200 };
+            for i in 0..nrand {
+                let len = 1 + r.below(if i % 5 == 0 { 400 } else { 40 }) as usize;
+                let pool: Vec<f64> = (0..(2 + r.below(6))).map(|_| match r.below(6) {
+                    0 => r.range(-1.0, 1.0) * 1e8,
+                    1 => r.range(-1.0, 1.0) * 1e-8,
+                    2 => 0.0,
+                    3 => -0.0,
+                    _ => (r.below(9) as f64) - 4.0,
+                }).collect();
+                let vs: Vec<f64> = (0..len).map(|_| *r.pick(&pool)).collect();
+                let os: Vec<i128> = (0..len).map(|_| if r.below(3) == 0 { 1 } else { 0 }).collect();
+                let mut ob = pool.clone();
+                ob.push(0.5);
+                emit("Empirical::history", &[Arg::FL(vs.clone()), Arg::IL(os), Arg::FL(ob.clone())]);
+                emit("Empirical::from_iter", &[Arg::FL(vs), Arg::FL(ob)]);
+            }
+        }
+        "order" => {
+            // every weak ordering of n positions (n ≤ 5 quick / 6 thorough) + seeded vectors; NaN-free
+            let maxn = if thorough { 6 } else { 5 };
+            let mut vecs: Vec<Vec<f64>> = vec![vec![]];
+            for n in 1..=maxn {
+                let mut idx = vec![0usize; n];
+                loop {
+                    // used rank values must form an initial segment
+                    let mx = *idx.iter().max().unwrap();
+                    if (0..=mx).all(|v| idx.contains(&v)) {
+                        vecs.push(idx.iter().map(|v| *v as f64 * 1.5 - 2.0).collect());
+                    }
+                    let mut i = 0;
+                    loop {
+                        if i == n {
+                            break;
+                        }
+                        idx[i] += 1;
+                        if idx[i] < n {
+                            break;
+                        }
+                        idx[i] = 0;
+                        i += 1;
+                    }
+                    if i == n {
+                        break;
+                    }
+                }
+            }
+            let nrand = if thorough { 400 } else { 60 };
+            for i in 0..nrand {
+                let n = 1 + r.below(if i % 8 == 0 { 600 } else { 40 }) as usize;
+                let mode = r.below(5);
+                let mut v: Vec<f64> = (0..n)
+                    .map(|j| match mode {
+                        0 => r.range(-100.0, 100.0),
+                        1 => j as f64,
+                        2 => (n - j) as f64,
+                        3 => (r.below(4) as f64) - 1.0,
+                        _ => 7.0,
+                    })
+                    .collect();
+                if i % 13 == 0 {
+                    v[0] = f64::INFINITY;
+                }
+                vecs.push(v);
+            }
+            for v in &vecs {
+                let n = v.len() as i128;
+                let ks: Vec<i128> = if n <= 8 { (0..=n + 1).collect() } else { vec![0, 1, 2, n / 2, n - 1, n, n + 1] };
+                for k in ks {
+                    emit("Data::order_statistic", &[Arg::FL(v.clone()), Arg::I(k)]);
+                }
+                emit("Data::median_os", &[Arg::FL(v.clone())]);
+                let taus: Vec<f64> = if n <= 6 { (0..=16).map(|t| t as f64 / 16.0).collect() } else { vec![0.0, 0.1, 0.25, 0.5, 0.75, 0.99, 1.0] };
+                for t in taus {
+                    emit("Data::quantile", &[Arg::FL(v.clone()), Arg::F(t)]);
+                }
+                emit("Data::quantile", &[Arg::FL(v.clone()), Arg::F(-0.5)]);
+                for p in [0i128, 10, 50, 90, 100] {
+                    emit("Data::percentile", &[Arg::FL(v.clone()), Arg::I(p)]);
+                }
+                emit("Data::lower_quartile", &[Arg::FL(v.clone())]);
+                emit("Data::upper_quartile", &[Arg::FL(v.clone())]);
+                emit("Data::interquartile_range", &[Arg::FL(v.clone())]);
             }
         }
         "inv_beta_reg" => {
